@@ -38,7 +38,7 @@ Fixpoint exists_from (p : list nat -> bool) (m1 m2 : mol) (todo : list nat) (phi
   match todo with
   | [] => p phi
   | i :: rest =>
-      existsb (fun j => consistent m1 m2 phi i j && exists_from p m1 m2 rest (phi ++ [j])) (cands m1 m2 phi i)
+      existsb (fun j => if consistent m1 m2 phi i j then exists_from p m1 m2 rest (phi ++ [j]) else false) (cands m1 m2 phi i)
   end.
 
 Definition exists_iso (p : list nat -> bool) (m1 m2 : mol) : bool :=
@@ -50,7 +50,7 @@ Definition void_centre_f (m : mol) (c : nat) : bool :=
                          match stereo_profile m m psi with
                          | [(c', SOpposite)] => Nat.eqb c' c
                          | _ => false
-                         end) m m.
+                         end && ez_same m m psi) m m.
 
 Definition diff_void_f (a b : mol) (phi : list nat) (d : nat * sdiff) : bool :=
   match d with
@@ -62,8 +62,8 @@ Definition diff_void_f (a b : mol) (phi : list nat) (d : nat * sdiff) : bool :=
 
 Definition same_molecule_f (m1 m2 : mol) : bool :=
   let a := strip_h m1 in let b := strip_h m2 in
-  exists_iso (fun phi => match stereo_profile a b phi with [] => true | _ => false end) a b ||
-  exists_iso (fun phi => forallb (diff_void_f a b phi) (stereo_profile a b phi)) a b.
+  exists_iso (fun phi => match stereo_profile a b phi with [] => true | _ => false end && ez_same a b phi) a b ||
+  exists_iso (fun phi => forallb (diff_void_f a b phi) (stereo_profile a b phi) && ez_same a b phi) a b.
 
 Definition same_constitution_f (m1 m2 : mol) : bool :=
   exists_iso (fun _ => true) (strip_h m1) (strip_h m2).
@@ -75,7 +75,7 @@ Definition mirror_image_f (m1 m2 : mol) : bool :=
                                     match a_chir (nth i (m_atoms a) (mkAtom [] false false 0 ChNone 0 0%Z)) with
                                     | ChNone => sdiff_eqb d SSame || diff_void_f a b phi (i, d)
                                     | _ => sdiff_eqb d SOpposite || void_centre_f a i end)
-                                 (seq 0 (length (m_atoms a)))) a b.
+                                 (seq 0 (length (m_atoms a))) && ez_same a b phi) a b.
 
 Definition iso_profiles_f (m1 m2 : mol) : list (list (nat * sdiff)) :=
   let a := strip_h m1 in let b := strip_h m2 in
@@ -83,7 +83,7 @@ Definition iso_profiles_f (m1 m2 : mol) : list (list (nat * sdiff)) :=
 
 Definition same_except_at_f (m1 m2 : mol) (ok : nat -> bool) : bool :=
   let a := strip_h m1 in let b := strip_h m2 in
-  exists_iso (fun phi => forallb (fun d => ok (fst d) || diff_void_f a b phi d) (stereo_profile a b phi)) a b.
+  exists_iso (fun phi => forallb (fun d => ok (fst d) || diff_void_f a b phi d) (stereo_profile a b phi) && ez_same a b phi) a b.
 
 Definition inverted_exactly_at_f (m1 m2 : mol) (at_ : nat -> bool) : bool :=
   let a := strip_h m1 in let b := strip_h m2 in
@@ -91,4 +91,4 @@ Definition inverted_exactly_at_f (m1 m2 : mol) (at_ : nat -> bool) : bool :=
                 forallb (fun i => let d := stereo_at a b phi i in
                                   if at_ i then sdiff_eqb d SOpposite
                                   else sdiff_eqb d SSame || diff_void_f a b phi (i, d))
-                        (seq 0 (length (m_atoms a)))) a b.
+                        (seq 0 (length (m_atoms a))) && ez_same a b phi) a b.
